@@ -203,6 +203,8 @@ pub struct Sim {
     pub event_writes: Vec<(u64, u64, u64, String)>,
     pub snapshot: Option<String>,
     pub pair_answer: Option<(bool, String)>,
+    /// C17 randomized runs: the executed schedule
+    pub schedule: Option<String>,
     pub pair_done: bool,
     /// virtual time of the last fork / branch switch of a peer
     pub last_reorg_at: Option<u64>,
@@ -294,6 +296,7 @@ impl Sim {
             event_writes: Vec::new(),
             snapshot: None,
             pair_answer: None,
+            schedule: None,
             pair_done: false,
             last_reorg_at: None,
             pair_span: plan_span,
@@ -991,6 +994,19 @@ impl Sim {
         })
     }
 
+    /// Randomized runs: operation `op`, or - when no such peer message exists in this state, or
+    /// its protocol is already taken by another operation of the case - the RPC call `op % 9`.
+    fn pair_job_or_rpc(&mut self, op: u64, taken: &[Option<ckb_network::ProtocolId>]) -> crate::runner::PairJob {
+        if let Some(j) = self.pair_job(op) {
+            let proto = j.deliver.as_ref().map(|d| d.nc.protocol_id());
+            if proto.is_none() || !taken.contains(&proto) {
+                return j;
+            }
+        }
+        self.stat("probe.c17.rand.handler_replaced_by_rpc_call");
+        self.pair_job(op % 9).expect("an RPC job can always be built")
+    }
+
     fn run_pair_job_alone(&mut self, job: crate::runner::PairJob) -> Option<String> {
         let mut rx = crate::runner::spawn_pair(job);
         match rx.recv_timeout(std::time::Duration::from_secs(20)) {
@@ -1030,7 +1046,13 @@ impl Sim {
             return;
         }
         // B is built from the state before A in every execution, so that it is the same B
-        let job = match self.pair_job(op) {
+        let is_rand = self.plan.flags.iter().any(|x| x.starts_with("pair_rand="));
+        let a_proto_id = match &ev {
+            Ev::ToClient { proto, .. } | Ev::Timer { proto, .. } => Some(crate::client::Proto::support(*proto).protocol_id()),
+            _ => None,
+        };
+        let first = if is_rand { Some(self.pair_job_or_rpc(op, &[a_proto_id])) } else { self.pair_job(op) };
+        let job = match first {
             Some(j) => j,
             None => {
                 // no such message can be sent in this state: nothing to pair
@@ -1050,7 +1072,7 @@ impl Sim {
                 return;
             }
         }
-        if mode.starts_with("serial:") || mode == "triple" {
+        if mode.starts_with("serial:") || mode == "triple" || mode == "rand" {
             self.run_triple_event(ev, write, &mode, job);
             self.snapshot = self.c17_snapshot();
             return;
@@ -1143,14 +1165,18 @@ impl Sim {
 
     /// Three operations: A (the history's event), B and C (built from the state before A).
     fn run_triple_event(&mut self, ev: Ev, write: u64, mode: &str, job_b: crate::runner::PairJob) {
-        let f = |k: &str| self.plan.flags.iter().find_map(|x| x.strip_prefix(k).and_then(|v| v.parse::<u64>().ok()));
+        let flags = self.plan.flags.clone();
+        let f = move |k: &str| flags.iter().find_map(|x| x.strip_prefix(k).and_then(|v| v.parse::<u64>().ok()));
         let op2 = f("pair_op2=").unwrap_or(0);
         let park2 = f("pair_park2=").unwrap_or(1);
         let a_proto = match &ev {
             Ev::ToClient { proto, .. } | Ev::Timer { proto, .. } => Some(crate::client::Proto::support(*proto).protocol_id()),
             _ => None,
         };
-        let job_c = match self.pair_job(op2) {
+        let is_rand = self.plan.flags.iter().any(|x| x.starts_with("pair_rand="));
+        let b_proto0 = job_b.deliver.as_ref().map(|d| d.nc.protocol_id());
+        let second = if is_rand { Some(self.pair_job_or_rpc(op2, &[a_proto, b_proto0])) } else { self.pair_job(op2) };
+        let job_c = match second {
             Some(j) => j,
             None => {
                 self.stat("probe.c17.no_such_message_now");
@@ -1192,6 +1218,62 @@ impl Sim {
                     self.flush(None);
                 }
             }
+            return;
+        }
+        if mode == "rand" {
+            // a seeded scheduler releases one thread at a time; every storage write, lock intent
+            // and query iteration of every thread is a potential parking point
+            let rseed = crate::entropy::mix(&[self.plan.seed, 0x4a17, f("pair_rand=").unwrap_or(0)]);
+            let mut jobs = vec![job_b, job_c];
+            if let Some(op3) = f("pair_op3=") {
+                // a fourth thread: a reader (its answer is not judged here; it takes part in the
+                // locking and must finish)
+                let op3 = [5u64, 6, 8, 4][(op3 % 4) as usize];
+                if let Some(j) = self.pair_job(op3) {
+                    jobs.push(j);
+                }
+            }
+            let n = jobs.len() + 1;
+            let one_in = 1 + rseed % 3;
+            crate::sched::begin(n, rseed, one_in, 8);
+            let mut rxs: Vec<crate::runner::PairRx> = Vec::new();
+            for (i, j) in jobs.into_iter().enumerate() {
+                rxs.push(crate::runner::spawn_sched(j, i + 1));
+            }
+            let controller = std::thread::spawn(move || crate::sched::control(n, rseed));
+            crate::sched::thread_start(0);
+            self.dispatch(ev);
+            crate::sched::thread_done();
+            let report = controller.join().ok();
+            let mut hung = false;
+            for rx in rxs.iter_mut() {
+                if rx.recv_timeout(std::time::Duration::from_secs(if report.as_ref().map(|r| r.deadlock).unwrap_or(true) { 1 } else { 20 })).is_err() {
+                    hung = true;
+                }
+            }
+            crate::sched::end();
+            match report {
+                Some(r) => {
+                    let names = ["A", "B", "C", "D"];
+                    let text: Vec<String> = r.schedule.iter().map(|(t, at)| format!("{}@{}", names[*t % 4], at)).collect();
+                    self.stat_add("c17.rand.scheduling_decisions", r.schedule.len() as u64);
+                    self.stat_add("c17.rand.released_thread_seen_blocked", r.blocked_seen);
+                    self.stat(&format!("c17.rand.threads_{}", n));
+                    // how often the scheduler switched to another thread than the one released before
+                    let switches = r.schedule.windows(2).filter(|w| w[0].0 != w[1].0).count() as u64;
+                    self.stat_add("c17.rand.context_switches", switches);
+                    self.schedule = Some(text.join(" "));
+                    if r.deadlock || hung {
+                        self.violate(
+                            "C17",
+                            "deadlock",
+                            format!("randomized run with {} threads: nobody can proceed after the schedule {}", n, text.join(" ")),
+                        );
+                    }
+                }
+                None => self.harness_error = Some("the scheduler thread died".into()),
+            }
+            self.flush(None);
             return;
         }
         let mut job_b = job_b;
